@@ -2,6 +2,7 @@
 use crate::engine::Session;
 use std::path::Path;
 
+pub mod c03;
 pub mod c08;
 pub mod c09;
 pub mod c10;
@@ -11,6 +12,7 @@ pub mod c20;
 
 pub fn run(session: &Session) -> i32 {
     match session.id {
+        "C03" => c03::run(session),
         "C08" => c08::run(session),
         "C09" => c09::run(session),
         "C10" => c10::run(session),
@@ -26,6 +28,7 @@ pub fn run(session: &Session) -> i32 {
 
 pub fn replay(session: &Session, path: &Path) -> i32 {
     match session.id {
+        "C03" => crate::engine::replay(session, &c03::C03, path),
         "C08" => crate::engine::replay(session, &c08::C08, path),
         "C09" => crate::engine::replay(session, &c09::C09, path),
         "C10" => crate::engine::replay(session, &c10::C10, path),
